@@ -17,7 +17,7 @@ META = {
                    "get_record_from_bytes is Some and the header parses, and deletes the file on the failing sides, while on the side where every decode check accepts neither a deletion nor any exit other than the index entry is reachable (a completed write is always re-indexed); (3) with_config seeds "
                    "records, records_by_distance and farthest_record from that scan, so a completed file write is recovered even if its "
                    "AddLocalRecordAsStored was lost; (4) the encryption seed derives only from PeerId::from(keypair.public()) and the nonce "
-                   "only from the record key — no time/random source flows into either. Not decided: that every torn prefix fails "
+                   "only from the record key — no time/random source flows into either. Also: the record directory is wiped, and the version marker that decides it rewritten, only on a version mismatch (or an absent marker); with_config scans the directory on every path and nothing bounds the walk; file APIs, paths, nonces and removals obey the disk rules shared with C01 (files touched only by their owning functions, remove() deletes the file on every path). Not decided: that every torn prefix fails "
                    "AES-GCM-SIV authentication; OS semantics of a crashed fs::write.",
     "not_decided": ["AES-GCM-SIV rejects every truncated/mixed ciphertext (cryptographic assumption)", "file-system behaviour of an interrupted fs::write"],
     "assumptions": ["an AEAD authentication failure is what distinguishes a torn file from a complete one"],
